@@ -1285,12 +1285,21 @@ func genPass(t *rapid.T) passCase {
 				if pr.SubPicCpbParamsInPicTimingSeiFlag {
 					il := uint(pr.DuCpbRemovalDelayIncrementLengthMinus1) + 1
 					n := rapid.IntRange(0, 6).Draw(t, "num_du_minus1")
-					v.Common = rapid.Bool().Draw(t, "common")
+					dense := rapid.IntRange(0, 3).Draw(t, "denseDUs") == 0
+					if dense {
+						// many decoding units of one NAL unit each (one bit per entry): more units than payload bytes
+						n = rapid.IntRange(8, 120).Draw(t, "num_du_minus1_many")
+					}
+					v.Common = rapid.Bool().Draw(t, "common") || dense
 					if v.Common {
 						v.CommonInc = uint32(rapid.Uint64Range(0, 1<<il-1).Draw(t, "inc"))
 					}
 					for i := 0; i <= n; i++ {
-						v.Nalus = append(v.Nalus, uint32(rapid.IntRange(0, 300).Draw(t, "nalus")))
+						if dense {
+							v.Nalus = append(v.Nalus, uint32(rapid.IntRange(0, 1).Draw(t, "nalusDense")*rapid.IntRange(0, 1).Draw(t, "nalusDense2")))
+						} else {
+							v.Nalus = append(v.Nalus, uint32(rapid.IntRange(0, 300).Draw(t, "nalus")))
+						}
 						if !v.Common && i < n {
 							v.Incs = append(v.Incs, uint32(rapid.Uint64Range(0, 1<<il-1).Draw(t, "inc")))
 						}
